@@ -233,10 +233,11 @@ def run(ctx, model=None):
                 return
     ctx.extra["exhaustive_small"] = f"all arrow x loose layouts for shapes {shapes}"
     rerun_same_directory(ctx, rng)
-    big = [(3, 3), (5, 1), (1, 5), (4, 2), (6, 6), (10, 9)] if ctx.quick() else \
-        [(3, 3), (5, 1), (1, 5), (4, 2), (6, 6), (10, 5), (5, 10), (40, 10), (10, 40), (30, 1), (1, 30)]
+    big = [(3, 3), (5, 1), (1, 5), (4, 2), (6, 6), (10, 9), (2, 49), (12, 11), (21, 20)] if ctx.quick() else \
+        [(3, 3), (5, 1), (1, 5), (4, 2), (6, 6), (10, 9), (2, 49), (12, 11), (10, 5), (5, 10), (40, 10), (10, 40), (30, 1),
+         (1, 30), (21, 20), (3, 103), (13, 12), (2, 98), (2, 107)]
     for (L, W) in big:
-        for rep in range(3 if ctx.quick() else 10):
+        for rep in range((3 if L * W <= 40 else 1) if ctx.quick() else (10 if L * W <= 100 else 2)):
             mv, rw, ls = boards.random_board(rng, L, W, fd=rep % 2 == 1, max_reward=6)
             check_board(ctx, mv, rw, ls, rng.choice(PGRID), rng.choice(PGRID), rng.choice(PGRID), model)
 
